@@ -7,7 +7,10 @@ fn customs_of(wasm: &[u8]) -> Result<Vec<(String, String)>> {
     for p in wasmparser::Parser::new(0).parse_all(wasm) {
         if let wasmparser::Payload::CustomSection(c) = p? {
             let n = c.name();
-            if n == "name" || n == "producers" || n.starts_with(".debug") {
+            const DWARF: &[&str] = &[".debug_abbrev", ".debug_addr", ".debug_aranges", ".debug_frame", ".debug_info", ".debug_line", ".debug_line_str",
+                ".debug_loc", ".debug_loclists", ".debug_macinfo", ".debug_macro", ".debug_pubnames", ".debug_pubtypes", ".debug_ranges", ".debug_rnglists",
+                ".debug_str", ".debug_str_offsets", ".debug_types", ".debug_cu_index", ".debug_tu_index"];
+            if n == "name" || n == "producers" || DWARF.contains(&n) {
                 continue;
             }
             v.push((n.to_string(), crate::ops::hex(c.data())));
@@ -69,6 +72,7 @@ pub fn customs(_args: &[String]) -> Result<Value> {
     layouts.push(vec![(1, "same", payloads[1].clone()), (3, "same", payloads[1].clone()), (5, "same", payloads[3].clone())]);
     layouts.push(vec![(2, "", payloads[4].clone()), (4, "nam", payloads[3].clone()), (4, "producer", payloads[0].clone()), (5, "debug_x", payloads[1].clone())]);
     layouts.push(vec![(5, "z", payloads[0].clone()), (5, "y", payloads[0].clone()), (5, "x", payloads[0].clone()), (0, "linking", payloads[3].clone())]);
+    layouts.push(vec![(5, ".debugger", payloads[2].clone()), (5, ".debug", payloads[1].clone())]);
     layouts.push(vec![(3, "sourceMappingURL", b"\x10http://x/y.map".to_vec()), (5, "target_features", b"\x01+\x0bbulk-memory".to_vec())]);
     let mut failures = vec![];
     let mut checked = 0;
@@ -95,7 +99,14 @@ pub fn customs(_args: &[String]) -> Result<Value> {
                 Ok(Ok(outs)) => {
                     for (k, o) in outs.iter().enumerate() {
                         if *o != want {
-                            failures.push(json!({"scenario": scenario, "emit_number": k + 1, "input_customs": want, "output_customs": o, "input_wasm_hex": crate::ops::hex(&wasm)}));
+                            // a known finding: sections whose name merely starts with ".debug" (not a DWARF section name) are
+                            // diverted into the DWARF path at parse time and never re-emitted
+                            let lost: Vec<&(String, String)> = want.iter().filter(|x| !o.contains(x)).collect();
+                            let only_prefix = !lost.is_empty() && lost.iter().all(|(n, _)| n.starts_with(".debug"))
+                                && o.iter().all(|x| want.contains(x)) && o.len() + lost.len() == want.len();
+                            let mut f = json!({"scenario": scenario, "emit_number": k + 1, "input_customs": want, "output_customs": o, "input_wasm_hex": crate::ops::hex(&wasm)});
+                            if only_prefix { f["finding_key"] = json!("C12:non-dwarf-section-with-.debug-prefix-dropped"); }
+                            failures.push(f);
                             break;
                         }
                     }
@@ -121,6 +132,23 @@ pub fn emit_twice(_args: &[String]) -> Result<Value> {
         }
     }
     inputs.push(("customs".into(), module_with_customs(&[(0, "a", vec![1]), (5, "b", vec![2, 3])])));
+    // several equal-sized functions whose used locals have four different types (locals layout must not depend on a hash order)
+    let mut t = String::from("(module ");
+    for i in 0..8 {
+        t.push_str(&format!("(func (export \"f{i}\") (param i32) (local i32 i64 f32 f64 i64 f32 i32 f64 v128 funcref externref) \
+            (local.set 1 (i32.const {i})) (local.set 2 (i64.const 2)) (local.set 3 (f32.const 3)) (local.set 4 (f64.const 4)) (local.set 5 (i64.const 5)) \
+            (local.set 6 (f32.const 6)) (local.set 7 (i32.const 7)) (local.set 8 (f64.const 8)) (local.set 9 (v128.const i32x4 0 0 0 0)) (local.set 10 (ref.null func)) (local.set 11 (ref.null extern)))"));
+    }
+    t.push(')');
+    inputs.push(("multi-type-locals".into(), wat::parse_str(&t)?));
+    // many types / many named entities of every kind (sorted emission of types and name maps)
+    let mut t = String::from("(module ");
+    for i in 0..12 { t.push_str(&format!("(type $t{i} (func (param {}) (result {})))", ["i32", "i64", "f32", "f64"][i % 4], ["i32 i32", "i64", "f32 f64", ""][(i / 4) % 4])); }
+    for i in 0..6 { t.push_str(&format!("(global $g{i} i32 (i32.const {i})) (memory $m{i} 1) (table $tb{i} 1 funcref) (data $d{i} \"x\") (elem $e{i} func)")); }
+    for i in 0..12 { t.push_str(&format!("(func $f{i} (type $t{i}) (local $l i32) unreachable)")); }
+    for i in 0..12 { t.push_str(&format!("(export \"f{i}\" (func $f{i}))")); }
+    t.push(')');
+    inputs.push(("many-names".into(), wat::parse_str(&t)?));
     for (name, wasm) in inputs {
         checked += 1;
         let w2 = wasm.clone();
@@ -145,6 +173,48 @@ pub fn emit_twice(_args: &[String]) -> Result<Value> {
             Ok(Ok(Some(w))) => failures.push(json!({"module": name, "what": w, "input_wasm_hex": crate::ops::hex(&wasm)})),
             Ok(Err(e)) => failures.push(json!({"module": name, "error": format!("{e:#}")})),
             Err(_) => failures.push(json!({"module": name, "panic": true})),
+        }
+    }
+    // modules edited through the public API: entities added in an order different from their final index order
+    for case in ["import-after-locals"] {
+        checked += 1;
+        let r = std::panic::catch_unwind(|| -> Result<Option<String>> {
+            // (producers off on both sides: an API-built module records no producer, a parsed one does)
+            let mut cfg = walrus::ModuleConfig::new();
+            cfg.generate_producers_section(false);
+            let mut m = walrus::Module::with_config(cfg.clone());
+            for i in 0..3 {
+                let g = m.globals.add_local(walrus::ValType::I32, false, false, walrus::ConstExpr::Value(walrus::ir::Value::I32(i)));
+                m.globals.get_mut(g).name = Some(format!("local{i}"));
+                m.exports.add(&format!("g{i}"), g);
+                let mem = m.memories.add_local(false, false, 1, None, None);
+                m.memories.get_mut(mem).name = Some(format!("mem{i}"));
+                m.exports.add(&format!("m{i}"), mem);
+                let t = m.tables.add_local(false, 1, None, walrus::RefType::Funcref);
+                m.tables.get_mut(t).name = Some(format!("tab{i}"));
+                m.exports.add(&format!("t{i}"), t);
+            }
+            let (ig, _) = m.add_import_global("env", "late", walrus::ValType::I32, false, false);
+            m.globals.get_mut(ig).name = Some("late_import".into());
+            m.exports.add("late", ig);
+            let (im, _) = m.add_import_memory("env", "latemem", false, false, 1, None, None);
+            m.memories.get_mut(im).name = Some("late_mem".into());
+            m.exports.add("latemem", im);
+            let (it, _) = m.add_import_table("env", "latetab", false, 1, None, walrus::RefType::Funcref);
+            m.tables.get_mut(it).name = Some("late_tab".into());
+            m.exports.add("latetab", it);
+            let a = m.emit_wasm();
+            let b = m.emit_wasm();
+            if a != b { return Ok(Some("two emits of the API-built module differ".into())); }
+            let d = cfg.parse(&a)?.emit_wasm();
+            if d != a { return Ok(Some(format!("re-parsing walrus's output of an API-built module and emitting again changes it ({} vs {} bytes)", a.len(), d.len()))); }
+            Ok(None)
+        });
+        match r {
+            Ok(Ok(None)) => {}
+            Ok(Ok(Some(w))) => failures.push(json!({"module": case, "what": w})),
+            Ok(Err(e)) => failures.push(json!({"module": case, "error": format!("{e:#}")})),
+            Err(_) => failures.push(json!({"module": case, "panic": true})),
         }
     }
     failures.truncate(8);
